@@ -41,7 +41,8 @@ def check_item(item):
         return res
     with cp:
         L = item["L"]
-        script = cp.op_exhaust(L, reps[:7], do_end=eof, digest=True) + cp.op_exhaust(max(L - 1, 1), reps[:7], do_end=eof, digest=True, bytewise=True)
+        # the state struct is filled with 0xAA before every start(): whatever start() leaves untouched is visible as such
+        script = cp.op_poison(0xAA) + cp.op_exhaust(L, reps[:7], do_end=eof, digest=True) + cp.op_exhaust(max(L - 1, 1), reps[:7], do_end=eof, digest=True, bytewise=True)
         recs, status = cp.run(script, timeout=300)
         if status == "timeout":
             res["status"] = "hang"
